@@ -171,7 +171,7 @@ Proof. exact ex_history_hyps. Qed.
 Example c12_trace_nonvacuous :
   map fst (run_hist ex_env (mkSt ex_fs []) ex_ops) =
   [ [(0, 15); (1, 300); (2, 15); (3, 200); (4, 5); (5, 100); (4, 4); (2, 12); (0, 12)];
-    [(1, -1); (4, 12); (4, 8); (5, 20); (2, 8)] ].
+    [(1, -1); (4, 12); (5, 20); (4, 8); (2, 8)] ].
 Proof. exact ex_history_trace. Qed.
 
 (* the recover hypotheses hold after a suppression; writing the container first (the order of the
